@@ -603,3 +603,78 @@ func (p *Prog) contractModset(ct *Contract, fi *FuncInfo, ms map[string]bool) {
 		}
 	}
 }
+
+// globalInit finds the initialiser expression of a package-level variable of the loaded packages
+// (nil, false when the variable has none or is initialised by a multi-value call).
+func (p *Prog) globalInit(o *types.Var) (ast.Expr, bool) {
+	if p.globalInits == nil {
+		p.globalInits = map[types.Object]ast.Expr{}
+		p.globalDecl = map[types.Object]bool{}
+		for _, pk := range p.pkgs {
+			for _, f := range pk.Syntax {
+				for _, d := range f.Decls {
+					gd, ok := d.(*ast.GenDecl)
+					if !ok || gd.Tok != token.VAR {
+						continue
+					}
+					for _, sp := range gd.Specs {
+						vs := sp.(*ast.ValueSpec)
+						for i, nm := range vs.Names {
+							obj := pk.TypesInfo.Defs[nm]
+							if obj == nil {
+								continue
+							}
+							p.globalDecl[obj] = true
+							if len(vs.Values) == len(vs.Names) {
+								p.globalInits[obj] = vs.Values[i]
+							}
+						}
+					}
+				}
+			}
+		}
+	}
+	e, ok := p.globalInits[o]
+	return e, ok
+}
+
+// globalNilness classifies a never-assigned package-level variable of reference kind by its initialiser:
+// +1 certainly non-nil (call, composite literal, address-of, function literal), -1 certainly nil (no
+// initialiser, or the literal nil), 0 unknown.
+func (p *Prog) globalNilness(o *types.Var) int {
+	e, has := p.globalInit(o)
+	if !has {
+		if p.globalDecl[o] {
+			return -1 // declared in the loaded packages without an initialiser: the zero value
+		}
+		return 0 // a variable of a dependency: initialiser not loaded
+	}
+	switch x := ast.Unparen(e).(type) {
+	case *ast.Ident:
+		if x.Name == "nil" {
+			return -1
+		}
+	case *ast.CompositeLit, *ast.FuncLit:
+		return 1
+	case *ast.UnaryExpr:
+		if x.Op == token.AND {
+			return 1
+		}
+	case *ast.CallExpr:
+		// constructors of the standard library and the repository used for package-level values return
+		// non-nil values (errors.New, fmt.Errorf, regexp.MustCompile, metrics/New..., make); conversions keep
+		// the operand
+		if id, ok := x.Fun.(*ast.Ident); ok && id.Name == "make" {
+			return 1
+		}
+		if sel, ok := x.Fun.(*ast.SelectorExpr); ok {
+			if pkg, ok := sel.X.(*ast.Ident); ok {
+				switch pkg.Name + "." + sel.Sel.Name {
+				case "errors.New", "fmt.Errorf", "regexp.MustCompile", "log.New":
+					return 1
+				}
+			}
+		}
+	}
+	return 0
+}
